@@ -99,7 +99,10 @@ def main():
                     'against the grammar and for alphabetical option order: '
                     'a fixed structure x all combinations of 5 texts x 7 '
                     'encodings x indent {0,1,4} x line_endings x container '
-                    'encoding, plus random call sequences',
+                    'encoding, plus 600 encoding-scope histories (the same '
+                    'explicit-option content calls under successive '
+                    'containers of differing effective encoding), plus '
+                    'random call sequences',
             'bound': '%d combinations + random sequences' % r['evaluations'],
             'evaluations': r['evaluations'],
             'distinct_nontrivial': r['evaluations']})
